@@ -195,7 +195,7 @@ class Run(object):
             print("KNOWN-FINDING: property=%s %s [key=%s, %d case(s) this run]" % (self.pid, what, k, n))
 
         # replay files for fresh violations: one per distinct key first
-        rdir = os.path.join(VERIF, "replays", self.pid)
+        rdir = os.path.join(os.environ.get("VERIF_REPLAY_DIR") or os.path.join(VERIF, "replays"), self.pid)
         written = 0
         seen_keys = set()
         ordered = sorted(fresh, key=lambda v: (v.key, len(json.dumps(v.to_json()))))
@@ -250,8 +250,9 @@ class Run(object):
             "wall_s": round(wall, 3),
             "violations": len(fresh),
         }
-        os.makedirs(os.path.join(VERIF, "evidence"), exist_ok=True)
-        with open(os.path.join(VERIF, "evidence", self.pid + ".json"), "w") as f:
+        edir = os.environ.get("VERIF_EVIDENCE_DIR") or os.path.join(VERIF, "evidence")
+        os.makedirs(edir, exist_ok=True)
+        with open(os.path.join(edir, self.pid + ".json"), "w") as f:
             json.dump(ev, f, indent=1, sort_keys=True)
             f.write("\n")
 
